@@ -476,7 +476,7 @@ def rule_single(ctx):
     C.require(lhs is not None, "_parse_einsum_single: equation split not found")
     rewrites = {}
     for i, st in enumerate(pf.node.body):
-        if any(isinstance(x, ast.Assign) and dotted(x.targets[0]) == lhs and isinstance(x.value, (ast.Call, ast.BinOp))
+        if any(isinstance(x, ast.Assign) and dotted(x.targets[0]) == lhs and isinstance(x.value, (ast.Call, ast.BinOp, ast.IfExp))
                and "replace" in C.unparse(x.value) for x in ast.walk(st)):
             rewrites.setdefault(i, True)
     good = pos.get("diag", -1) < pos.get("sum", -1) < pos.get("perm", -1) and \
@@ -999,4 +999,177 @@ def rule_plandep(ctx):
     return r
 
 
-RULES = [rule_plandep, rule_layout, rule_perm, rule_single, rule_axes, rule_memo, rule_exec, rule_pure]
+class _NoStr(Exception):
+    pass
+
+
+def _streval(e, env):
+    """evaluation of pure string / int expressions over sample values (used for the layout bookkeeping only)"""
+    if isinstance(e, ast.Constant):
+        return e.value
+    if isinstance(e, ast.Name):
+        if e.id in env:
+            return env[e.id]
+        raise _NoStr(e.id)
+    if isinstance(e, ast.BinOp):
+        a, b = _streval(e.left, env), _streval(e.right, env)
+        if isinstance(e.op, ast.Add):
+            return a + b
+        if isinstance(e.op, ast.Mult):
+            return a * b
+        if isinstance(e.op, ast.Sub):
+            return a - b
+        raise _NoStr("op")
+    if isinstance(e, ast.Compare) and len(e.ops) == 1:
+        a, b = _streval(e.left, env), _streval(e.comparators[0], env)
+        op = e.ops[0]
+        table = {ast.In: lambda: a in b, ast.NotIn: lambda: a not in b, ast.Eq: lambda: a == b, ast.NotEq: lambda: a != b,
+                 ast.Lt: lambda: a < b, ast.LtE: lambda: a <= b, ast.Gt: lambda: a > b, ast.GtE: lambda: a >= b}
+        if type(op) in table:
+            return table[type(op)]()
+        raise _NoStr("cmp")
+    if isinstance(e, ast.BoolOp):
+        vals = [_streval(v, env) for v in e.values]
+        return all(vals) if isinstance(e.op, ast.And) else any(vals)
+    if isinstance(e, ast.UnaryOp) and isinstance(e.op, ast.Not):
+        return not _streval(e.operand, env)
+    if isinstance(e, ast.IfExp):
+        return _streval(e.body if _streval(e.test, env) else e.orelse, env)
+    if isinstance(e, ast.Subscript):
+        v = _streval(e.value, env)
+        sl = e.slice
+        if isinstance(sl, ast.Slice):
+            lo = _streval(sl.lower, env) if sl.lower is not None else None
+            hi = _streval(sl.upper, env) if sl.upper is not None else None
+            return v[lo:hi]
+        return v[_streval(sl, env)]
+    if isinstance(e, ast.Call) and isinstance(e.func, ast.Attribute) and e.func.attr in ("count", "replace", "index", "find", "rfind", "join", "startswith"):
+        recv = _streval(e.func.value, env)
+        args = [_streval(a, env) for a in e.args]
+        return getattr(recv, e.func.attr)(*args)
+    if isinstance(e, ast.Call) and isinstance(e.func, ast.Name) and e.func.id in ("len", "sorted", "min", "max", "str") and len(e.args) == 1:
+        return {"len": len, "sorted": sorted, "min": min, "max": max, "str": str}[e.func.id](_streval(e.args[0], env))
+    if isinstance(e, (ast.GeneratorExp, ast.ListComp)) and len(e.generators) == 1 and isinstance(e.generators[0].target, ast.Name):
+        g = e.generators[0]
+        out = []
+        for v in _streval(g.iter, env):
+            env2 = dict(env, **{g.target.id: v})
+            if all(_streval(c, env2) for c in g.ifs):
+                out.append(_streval(e.elt, env2))
+        return out
+    raise _NoStr(C.unparse(e, 40))
+
+
+def _strexec(stmts, env):
+    for st in stmts:
+        if isinstance(st, ast.Assign) and len(st.targets) == 1 and isinstance(st.targets[0], ast.Name):
+            env[st.targets[0].id] = _streval(st.value, env)
+        elif isinstance(st, ast.AugAssign) and isinstance(st.target, ast.Name) and isinstance(st.op, ast.Add):
+            env[st.target.id] = env[st.target.id] + _streval(st.value, env)
+        elif isinstance(st, ast.If):
+            _strexec(st.body if _streval(st.test, env) else st.orelse, env)
+        elif isinstance(st, ast.Expr) and isinstance(st.value, ast.Constant):
+            pass
+        else:
+            raise _NoStr(C.unparse(st, 40))
+    return env
+
+
+def rule_diag(ctx):
+    """(seed C11_7) The single-operand planner takes diagonals by advanced indexing and keeps a string describing the
+    axes of what results.  numpy's rule for where the fused axis lands is part of the reference: the advanced indices
+    adjacent -> the axis stays at the position of the first; separated by a slice -> it moves to the *front*.  The
+    statements that update the layout string after a diagonal are evaluated on sample layouts and compared with
+    that rule."""
+    r = RuleResult("C11-DIAG", "the layout after a diagonal follows numpy's advanced-indexing rule", 1)
+    f = ctx.p.func(C.CONTRACT, "_parse_einsum_single")
+    C.require(f is not None, "_parse_einsum_single not found")
+    lhs = None
+    for n in walk_local(f.node):
+        if isinstance(n, ast.Assign) and isinstance(n.targets[0], ast.Tuple) and isinstance(n.value, ast.Call) and \
+                dotted(n.value.func) == "_sanitize_equation":
+            lhs = n.targets[0].elts[0].id
+    C.require(lhs is not None, "_parse_einsum_single: layout string not found")
+    loops = [n for n in walk_local(f.node) if isinstance(n, (ast.While, ast.For)) and
+             any(isinstance(x, ast.Call) and isinstance(x.func, ast.Attribute) and x.func.attr == "append" and "sel" in C.unparse(x.func.value)
+                 for x in ast.walk(n))]
+    C.require(len(loops) == 1, "_parse_einsum_single: the diagonal loop not found")
+    lp = loops[0]
+    ixd = None
+    if isinstance(lp, ast.For) and isinstance(lp.target, ast.Name):
+        ixd = lp.target.id
+    for st in lp.body:
+        if isinstance(st, ast.Assign) and isinstance(st.targets[0], ast.Name) and isinstance(st.value, ast.Call) and \
+                isinstance(st.value.func, ast.Attribute) and st.value.func.attr in ("pop", "popleft"):
+            ixd = st.targets[0].id
+    C.require(ixd is not None, "_parse_einsum_single: the index being fused not found")
+    # the statements after the selector is recorded
+    idx = max(i for i, st in enumerate(lp.body) if any(isinstance(x, ast.Call) and isinstance(x.func, ast.Attribute)
+              and x.func.attr == "append" and "sel" in C.unparse(x.func.value) for x in ast.walk(st)))
+    block = lp.body[idx + 1:]
+    k = ctx.key(f, "C11-DIAG")
+    samples = [("aab", "a"), ("baa", "a"), ("aba", "a"), ("abab", "a"), ("abab", "b"), ("abcb", "b"), ("aaa", "a"), ("abca", "a"),
+               ("bcaad", "a"), ("abcabc", "c")]
+    bad = None
+    try:
+        for lay, ch in samples:
+            env = _strexec(block, {lhs: lay, ixd: ch})
+            got = env[lhs]
+            kk = lay.count(ch)
+            want = lay.replace(ch * kk, ch) if ch * kk in lay else ch + lay.replace(ch, "")
+            if got != want and bad is None:
+                bad = (lay, ch, got, want)
+    except _NoStr as e:
+        raise AnalysisError(f"_parse_einsum_single: layout update not evaluable ({e})")
+    if bad:
+        r.violation(k, C.loc(f, block[0]) if block else f.loc, f"after taking the diagonal over `{bad[1]}` of an operand laid out `{bad[0]}` the planner goes on with "
+                    f"`{bad[2]}`, numpy's result is laid out `{bad[3]}` (separated advanced indices put the fused axis first): the sums, "
+                    "further diagonals and the final transposition are then computed for the wrong axes")
+    else:
+        r.ok(k, C.loc(f, block[0]), f"layout update agrees with the advanced-indexing rule on {len(samples)} sample layouts")
+    return r
+
+
+def rule_dedup(ctx):
+    """(seed C11_8) An operand may repeat an index (`abb,bc`): each classification list of the pairwise planner gets
+    an index once.  Every loop over a term that appends to such a list skips occurrences already seen (`if ix in
+    seen: continue` before the appends, `seen.add(ix)` after), and the set is emptied or re-created between the
+    loops over the two terms."""
+    r = RuleResult("C11-DEDUP", "a repeated index is classified once per operand", 2)
+    f = ctx.p.func(C.CONTRACT, PLAN)
+    loops = [n for n in f.node.body if isinstance(n, ast.For) and isinstance(n.iter, ast.Call) and dotted(n.iter.func) == "zip"
+             and any(isinstance(x, ast.Call) and isinstance(x.func, ast.Attribute) and x.func.attr == "append" for x in ast.walk(n))]
+    C.require(len(loops) >= 2, f"{PLAN}: the loops over the two terms not found")
+    prev_set = None
+    for i, lp in enumerate(loops):
+        k = ctx.key(f, "C11-DEDUP", f"term#{i}")
+        ix = lp.target.elts[0].id if isinstance(lp.target, ast.Tuple) and isinstance(lp.target.elts[0], ast.Name) else None
+        C.require(ix is not None, f"{PLAN}: loop target not recognised")
+        first_append = min((x.lineno for x in ast.walk(lp) if isinstance(x, ast.Call) and isinstance(x.func, ast.Attribute)
+                            and x.func.attr == "append" and not C.unparse(x.func.value).startswith("new_")), default=None)
+        skips = [st for st in lp.body if isinstance(st, ast.If) and isinstance(st.test, ast.Compare) and isinstance(st.test.ops[0], ast.In)
+                 and dotted(st.test.left) == ix and st.body and isinstance(st.body[-1], ast.Continue)]
+        sname = dotted(skips[0].test.comparators[0]) if skips else None
+        adds = [x for x in ast.walk(lp) if isinstance(x, ast.Call) and isinstance(x.func, ast.Attribute) and x.func.attr == "add"
+                and dotted(x.func.value) == sname and x.args and dotted(x.args[0]) == ix] if sname else []
+        ok = bool(skips) and bool(adds) and (first_append is None or skips[0].lineno < first_append)
+        reset_ok = True
+        if ok and prev_set is not None and prev_set[0] == sname:
+            between = [st for st in f.node.body if prev_set[1].lineno < st.lineno < lp.lineno]
+            reset_ok = any((isinstance(st, ast.Expr) and isinstance(st.value, ast.Call) and C.unparse(st.value.func) == f"{sname}.clear") or
+                           (isinstance(st, ast.Assign) and any(dotted(t) == sname for t in st.targets)) for st in between)
+        if not ok:
+            r.violation(k, C.loc(f, lp), f"the loop over `{C.unparse(lp.iter, 40)}` appends to the classification lists without skipping occurrences "
+                        f"of `{ix}` it has already seen: an operand that repeats an index gets it twice in a kept / batch group — reshape and "
+                        "permutation are planned for an axis that does not exist")
+        elif not reset_ok:
+            r.violation(k, C.loc(f, lp), f"`{sname}` still holds the first term's indices when the second term is read: every shared index is "
+                        "skipped there")
+        else:
+            r.ok(k, C.loc(f, skips[0]), f"occurrences after the first are skipped through `{sname}`")
+        if sname:
+            prev_set = (sname, lp)
+    return r
+
+
+RULES = [rule_diag, rule_dedup, rule_plandep, rule_layout, rule_perm, rule_single, rule_axes, rule_memo, rule_exec, rule_pure]
